@@ -53,3 +53,22 @@ Proof.
   exists (update_reply_ack (set_apf (set_vf be_init VhostUserVirtioFeatures_PROTOCOL_FEATURES) VhostUserProtocolFeatures_REPLY_ACK)).
   split; reflexivity.
 Qed.
+
+(* the acknowledgement rule REGENERATED from update_reply_ack_flag / send_ack_message on this run (Gen.GenBeAck), which the
+   request-server model calls: acknowledgements are in force exactly when the device offers PROTOCOL_FEATURES and REPLY_ACK
+   was acknowledged; one is written exactly when they are in force and the request asks for it; its value is 0 exactly
+   for a successful handler; it is a u64 reply without descriptors and the handler's own result is what is returned *)
+From VV Require Import Gen.GenBeAck.
+Theorem C04_flag_rule_regenerated : forall vf apf,
+  ra_enabled vf apf = has vf VhostUserVirtioFeatures_PROTOCOL_FEATURES && has apf VhostUserProtocolFeatures_REPLY_ACK.
+Proof. exact ra_enabled_spec. Qed.
+Print Assumptions C04_flag_rule_regenerated.
+Theorem C04_ack_written_regenerated : forall ra nr, ack_written ra nr = ra && nr.
+Proof. exact ack_written_spec. Qed.
+Print Assumptions C04_ack_written_regenerated.
+Theorem C04_ack_value_regenerated : forall ok, (ack_value ok =? 0) = ok.
+Proof. exact ack_value_spec. Qed.
+Print Assumptions C04_ack_value_regenerated.
+Theorem C04_ack_code_shape : ack_shape_ok = true.
+Proof. exact ack_shape_ok_true. Qed.
+Print Assumptions C04_ack_code_shape.
